@@ -190,6 +190,7 @@ type vLN struct {
 	statusN   int
 	feeReserve func(uint64) uint64
 	anyInvoice bool
+	unsettled  bool // incoming invoices are reported as not settled
 }
 
 type vStatusAns struct {
@@ -224,6 +225,21 @@ func (l *vLN) CreateInvoice(amount uint64) (lightning.Invoice, error) {
 		return l.FakeBackend.CreateInvoice(1)
 	}
 	return l.FakeBackend.CreateInvoice(amount)
+}
+
+func (l *vLN) InvoiceStatus(hash string) (lightning.Invoice, error) {
+	inv, err := l.FakeBackend.InvoiceStatus(hash)
+	if l.unsettled {
+		inv.Settled = false
+	}
+	return inv, err
+}
+
+func (l *vLN) SubscribeInvoice(ctx context.Context, paymentHash string) (lightning.InvoiceSubscriptionClient, error) {
+	if l.unsettled {
+		return nil, errors.New("verif: no subscription")
+	}
+	return l.FakeBackend.SubscribeInvoice(ctx, paymentHash)
 }
 
 func (l *vLN) FeeReserve(amount uint64) uint64 {
